@@ -226,15 +226,22 @@ def default_passes(h):
     return list(h.elab.Elaborator.default().passes)
 
 
-def make_boundary_fault(h, module_obj, label, counter):
+def make_boundary_fault(h, module_obj, label, counter, dirty=False):
     """A fresh `ElabPass` subclass (own done-set) that raises when it visits `module_obj`
-    (visit order is the pass's own depth-first order)."""
+    (visit order is the pass's own depth-first order).  `dirty`: it is a *rewriting* pass that
+    fails half-way: one signal of the module has been widened by a bit when the exception is
+    raised, so the module must never be exported afterwards (C08)."""
     from hdl21.elab.passes.base import ElabPass
 
     class BoundaryFault(ElabPass):
         def elaborate_module(self, module):
             if module is module_obj:
                 counter["raised"] = counter.get("raised", 0) + 1
+                if dirty:
+                    victims = list(module.signals.values()) + list(module.ports.values())
+                    if victims:
+                        victims[0].width = victims[0].width + 1
+                        counter["dirty_rewrite"] = counter.get("dirty_rewrite", 0) + 1
                 raise InjectedFault(f"injected fault {label}")
             return module
 
